@@ -208,12 +208,34 @@ class Driver:
             raise RuntimeError(f"driver answered {len(out)} lines for {len(lines)} requests")
         return out
 
+    _persistent = None
+
+    def ask(self, lines: list[str]) -> list[str]:
+        """small batches through one long-lived driver process (keeps the signature memo warm, no process start-up per call)"""
+        if Driver._persistent is None or Driver._persistent.poll() is not None:
+            Driver._persistent = subprocess.Popen([DRIVER], stdin=subprocess.PIPE, stdout=subprocess.PIPE, stderr=subprocess.DEVNULL)
+            import atexit
+
+            atexit.register(lambda p=Driver._persistent: (p.stdin.close(), p.wait(timeout=5)) if p.poll() is None else None)
+        p = Driver._persistent
+        out = []
+        for ln in lines:
+            p.stdin.write(ln.encode("ascii") + b"\n")
+            p.stdin.flush()
+            ans = p.stdout.readline()
+            if not ans:
+                raise RuntimeError("driver died on: " + ln[:200])
+            out.append(ans.decode("ascii").rstrip("\n"))
+        return out
+
     def run(self, lines: list[str], groups: list[int] | None = None) -> list[str]:
         """answers in request order.  `groups[i]` (optional) keeps related requests in one process so the
         driver's signature memo is shared."""
         n = len(lines)
         if n == 0:
             return []
+        if n <= 4:
+            return self.ask(lines)
         w = max(1, min(self.workers, n // 8 or 1))
         if groups is None:
             bounds = [(n * k // w, n * (k + 1) // w) for k in range(w)]
